@@ -263,7 +263,8 @@ class SizeGuard(object):
     and set_coding_parameters (every alias) so that declarations beyond the bounds
     raise OutOfScope (a BaseException) instead of consuming minutes."""
 
-    def __init__(self, bounds=None, max_luma=MAX_LUMA_SAMPLES):
+    def __init__(self, bounds=None, max_luma=MAX_LUMA_SAMPLES, max_depth=21):
+        self.max_depth = max_depth
         self.bounds = dict(GUARD_BOUNDS)
         self.bounds.update(bounds or {})
         self.max_luma = max_luma
@@ -278,6 +279,7 @@ class SizeGuard(object):
 
         bounds = self.bounds
         max_luma = self.max_luma
+        max_depth = self.max_depth
 
         def f1(orig):
             def guarded(state, key, value):
@@ -293,7 +295,7 @@ class SizeGuard(object):
                 r = orig(state, video_parameters)
                 if state["luma_width"] * state["luma_height"] > max_luma:
                     raise OutOfScope("luma samples")
-                if max(state["luma_depth"], state["color_diff_depth"]) > 21:
+                if max(state["luma_depth"], state["color_diff_depth"]) > max_depth:
                     raise OutOfScope("depth")
                 return r
 
@@ -317,7 +319,8 @@ class DeserialiserGuard(object):
     """Same bounds for the bitstream deserialiser/viewer, applied where it
     reads the size-determining fields (SerDes.uint / nbits by target name)."""
 
-    def __init__(self, bounds=None, max_luma=MAX_LUMA_SAMPLES):
+    def __init__(self, bounds=None, max_luma=MAX_LUMA_SAMPLES, max_depth=21):
+        self.max_depth = max_depth
         self.bounds = dict(GUARD_BOUNDS)
         self.bounds.update(bounds or {})
         self.max_luma = max_luma
@@ -366,7 +369,7 @@ class DeserialiserGuard(object):
                 r = orig(state, video_parameters)
                 if state["luma_width"] * state["luma_height"] > max_luma:
                     raise OutOfScope("luma samples")
-                if max(state["luma_depth"], state["color_diff_depth"]) > 21:
+                if max(state["luma_depth"], state["color_diff_depth"]) > max_depth:
                     raise OutOfScope("depth")
                 return r
 
